@@ -15,6 +15,8 @@
  *   4 release the queue sink   5 release the application's reference on the queue source
  *   7 consumer worker   8 consumer oob   9 producer watcher   (7-9: if ready)
  *   10 set_output(queue sink, S1)   11 set_output(queue sink, NULL)     (pseudo-output: only a reference is kept)
+ *   12 register a sink-latency request on the queue sink   13 unregister it   14 the consumer-side sink answers what is
+ *   lodged with it   15 producer oob callback (answers travelling back)          (C12 across the queue)
  * After the script both pipes are released (if not yet) and the loops run until nothing is ready. */
 #define ENV_WITH_UPUMP 1
 #define ENV_SINK_HOOKS 1
@@ -118,6 +120,46 @@ static void env_on_sink_input(int sink, struct uref *uref)
     VASSERT(sink_def == sent_def[k], "C06: every buffer is preceded by the flow definition it was sent under");
 }
 
+/* ---- C12 across the queue: one sink-latency request registered on the queue sink by the harness; the consumer-side
+ * sink S0 is the provider (it keeps what is lodged with it and answers on operation 14) ---- */
+static struct urequest RQ;
+static bool rq_registered, rq_provided;
+static unsigned rq_answers;
+static uint64_t rq_value;
+static struct urequest *lodged[4];
+static int nlodged;
+static int rq_provide(struct urequest *urequest, va_list args)
+{
+    VASSERT(urequest == &RQ, "C12: the answer is delivered to the original request");
+    VASSERT(rq_registered, "C12: after a request has been unregistered its callback is never invoked again (across the queue)");
+    uint64_t v = va_arg(args, uint64_t);
+    VASSERT(rq_provided && v == rq_value, "C12: the answer carries the provider's value");
+    rq_answers++;
+    return UBASE_ERR_NONE;
+}
+static int sink_control(struct upipe *upipe, int command, va_list args)
+{
+    if (env_sink_of(upipe)->id == 0 && command == UPIPE_REGISTER_REQUEST) {
+        struct urequest *r = va_arg(args, struct urequest *);
+        VASSERT(nlodged < 4, "harness capacity: lodged requests");
+        lodged[nlodged++] = r;
+        return UBASE_ERR_NONE;
+    }
+    if (env_sink_of(upipe)->id == 0 && command == UPIPE_UNREGISTER_REQUEST) {
+        struct urequest *r = va_arg(args, struct urequest *);
+        int found = -1;
+        for (int i = 0; i < nlodged; i++)
+            if (lodged[i] == r)
+                found = i;
+        VASSERT(found >= 0, "C12: only a request that is lodged with the provider is withdrawn from it");
+        for (int i = found; i + 1 < nlodged; i++)
+            lodged[i] = lodged[i + 1];
+        nlodged--;
+        return UBASE_ERR_NONE;
+    }
+    return env_sink_control(upipe, command, args);
+}
+
 static struct upump *find_pump(upump_cb cb)
 {
     struct upump_mock_mgr *mm = upump_mock_mgr_from_upump_mgr(env_upump_mgr);
@@ -147,6 +189,8 @@ int main(void)
     env_init();
     env_probe_init();
     env_sinks_init();
+    env_sink_mgr.upipe_control = sink_control;
+    urequest_init_sink_latency(&RQ, rq_provide, NULL);
     QSRC = upipe_qsrc_alloc(upipe_qsrc_mgr_alloc(), uprobe_use(&env_probe), LEN);
     VASSUME(QSRC != NULL);
     VASSERT(ubase_check(upipe_set_output(QSRC, &env_sinks[0].upipe)), "output connected");
@@ -194,6 +238,28 @@ int main(void)
             case 11:
                 VASSERT(ubase_check(upipe_set_output(QSINK, NULL)), "pseudo-output removed");
                 break;
+            case 12:
+                VASSERT(ubase_check(upipe_register_request(QSINK, &RQ)), "request accepted by the queue sink");
+                rq_registered = true;
+                break;
+            case 13:
+                if (rq_registered) {
+                    VASSERT(ubase_check(upipe_unregister_request(QSINK, &RQ)), "request withdrawn from the queue sink");
+                    rq_registered = false;
+                    rq_provided = false;
+                }
+                break;
+            case 14:        /* the provider answers what is lodged with it (symbolic value) */
+                if (nlodged > 0) {
+                    rq_value = nd_u64();
+                    if (rq_registered)
+                        rq_provided = true;
+                    VASSERT(ubase_check(urequest_provide_sink_latency(lodged[0], rq_value)), "answer accepted");
+                }
+                break;
+            case 15:
+                (void)run_cb(4);
+                break;
             default:
                 (void)run_cb(ops[k] - 6);
                 break;
@@ -204,6 +270,17 @@ int main(void)
     VASSUME(delivered >= WITNESS_DELIVERED);
 #endif
     VWITNESS();
+    /* an answer given while the request was (and still is) registered reaches the requester once the loops ran */
+    if (rq_registered && rq_provided && !qsink_released) {
+        for (int s = 0; s < SETTLE; s++)
+            if (!(run_cb(4) || run_cb(2) || run_cb(1) || run_cb(3)))
+                break;
+        VASSERT(rq_answers >= 1, "C12: the answer of the provider behind the queue reaches the original requester");
+    }
+    if (rq_registered && !qsink_released) {
+        VASSERT(ubase_check(upipe_unregister_request(QSINK, &RQ)), "request withdrawn from the queue sink");
+        rq_registered = false;
+    }
     /* teardown: both handles go, the loops run until nothing is ready */
     if (!qsink_released)
         upipe_release(QSINK);
@@ -223,6 +300,8 @@ int main(void)
     VASSERT(env_count(QSINK, UPROBE_DEAD) == 1 && env_count(QSRC, UPROBE_DEAD) == 1, "C01: both pipes die exactly once when the last reference goes");
     VASSERT(upump_mock_mgr_from_upump_mgr(env_upump_mgr)->live_pumps == 0, "C01: every watcher was freed");
     VASSERT(!env_sinks[0].dead && uatomic_load(&env_sinks[0].refcount.refcount) == 1, "C01: the queue source returned every reference on its output");
+    VASSERT(nlodged == 0, "C12: nothing stays lodged with the provider once the request was withdrawn and the pipes are gone");
+    urequest_clean(&RQ);
     VASSERT(!env_sinks[1].dead && uatomic_load(&env_sinks[1].refcount.refcount) == 1, "C01: the queue sink returned exactly the references it took on its pseudo-output");
     env_sinks_done();
     upump_mgr_release(env_upump_mgr);
